@@ -47,13 +47,23 @@ PROPS["C06"] = {
     ],
     "assumptions": ["bytes.Buffer / encoding/binary read semantics as modelled (short read = error), validated differentially"],
 }
+_CONSUME_STREAM = {"name": "consume", "keys": None, "trivial": r"^(d=nocons|d=blocked|d=sent rep=- reqs=- term=0|stopped cons=-|rc=\w+ closes=\d cons=-)$", "hist_keys": ["rc", "d", "term"],
+                   "scale": {"quick": 1, "thorough": 6}, "seeds": {"quick": 1, "thorough": 3}}
+_CONSUME_RULE = ("stream consume: the Kafka consumer module's REAL startKafkaConsumer (hook e99cdc2) on a scripted offsets topic (verifhook.FakeOffsetsTopic): 0-4 partitions (ids 0,1,2,5), "
+                 "start-latest on/off, backfill-earliest on/off, a reported group on/off, oldest/newest offsets per partition incl. empty partitions, newest = 0 and newest = oldest + 1, one injected fault "
+                 "in a third of the cases (first or second NewConsumerFromClient, Partitions, ConsumePartition of a live or backfill consumer, GetOffset oldest/newest); compared: the result, how often the client "
+                 "was closed, every partition consumer opened (instance, partition, start offset, closed or not). Then 0-13 messages fed to the consumers it opened — structured commits and group-metadata records "
+                 "from the decode stream's encoder, nil messages, consume errors — at offsets placed around each backfill's end offset; per message: delivered or blocked (nobody reads that consumer), the module's "
+                 "own progress commit, the decoder's requests (sorted), whether the consumer ended; finally the real Stop and which consumers were closed. Non-trivial = a delivered message that forwards something, "
+                 "or a start that opens a consumer.")
 PROPS["C07"] = {
     "lean_modules": ["BurrowVerif.Props.C07"],
     "props_files": ["BurrowVerif/Props/C07.lean"],
     "anchors": ["core/internal/consumer/kafka_client.go", "core/protocol/storage.go"],
-    "streams": [dict(_DECODE_STREAM, keys={"reqs"})],
-    "rule": _DECODE_RULE,
+    "streams": [dict(_DECODE_STREAM, keys={"reqs"}), _CONSUME_STREAM],
+    "rule": _DECODE_RULE + " | " + _CONSUME_RULE,
     "trusted": [
+        "the partition consumers are modelled by what they forward per message (Model/Consume.lean); which goroutine runs when is the runtime's; the module's own progress commit carries the wall clock as its timestamp, which is not compared",
         "the Kafka record formats are transcribed by hand into Spec/Wire.lean (no broker offline); the only Kafka-authored bytes available are the literal fixtures of the repository's tests, which are proved to be encodings in the sense of Spec.Wire",
         "order of owner updates across topics of one member follows Go map iteration and is compared as a sorted multiset per message",
         "TimeoutSendStorageRequest dropping a request after 1 s when storage is wedged is runtime behaviour, not modelled",
@@ -158,13 +168,17 @@ PROPS["C05"] = {
     "assumptions": PROPS["C01"]["assumptions"],
 }
 
-_CLUSTER_STREAM = {"name": "cluster", "keys": None, "trivial": r"^(ok|refresh=\d deletes=- asked=- updates=- fm=\d)$", "hist_keys": ["refresh", "fm"],
+_CLUSTER_STREAM = {"name": "cluster", "keys": None, "trivial": r"^(ok|stopped|refresh=\d deletes=- asked=- updates=- fm=\d|asked=\d del=-)$", "hist_keys": ["refresh", "fm"],
                    "scale": {"quick": 2, "thorough": 30}, "seeds": {"quick": 1, "thorough": 4}}
 _CLUSTER_RULE = ("stream cluster: the real KafkaCluster.getOffsets (hook) against a scripted fake Kafka client and brokers (verifhook.FakeKafka: Topics/Partitions/Leader/"
                  "GetAvailableOffsets answered from the op line, every call recorded, OffsetRequest blocks read by reflection): layouts of 0-4 topics x 0-4 partitions over 3 brokers with "
                  "leaderless partitions, evolving over 1-7 consecutive cycles (topics appearing, disappearing, re-appearing, losing all leaders), with Topics() failures, Partitions() failures "
                  "at any topic, leader lookups that answer differently at request time, failing broker calls, per-partition error codes, metadata ticks. Compared: RefreshMetadata calls, "
-                 "delete-topic requests, blocks asked of each broker, broker-offset updates (offset and partition count), the fetchMetadata flag. Non-trivial = any request, update or deletion.")
+                 "delete-topic requests, blocks asked of each broker, broker-offset updates (offset and partition count), the fetchMetadata flag. Non-trivial = any request, update or deletion. "
+                 "Every third case runs the module's REAL mainLoop (hook ff01871: the three tickers are channels the harness owns; real Stop at the end): offset ticks, metadata ticks "
+                 "(also two in a row) and groups-reaper ticks in any order; a stand-in for storage takes every request off the storage channel and answers the reaper's StorageFetchConsumers "
+                 "with a scripted listing (or a nil reply); ListConsumerGroups answers a scripted set or fails; compared per tick: the cycle's output as above, and for a reaper tick whether "
+                 "storage was asked and the delete-group requests in order (groups g0-g3, G0, the cluster's own burrow-c0 and another cluster's burrow-c1).")
 PROPS["C11"] = {
     "lean_modules": ["BurrowVerif.Props.C11"],
     "props_files": ["BurrowVerif/Props/C11.lean"],
@@ -193,8 +207,9 @@ PROPS["C09"] = {
     "anchors": ["core/internal/storage/inmemory.go"],
     "streams": [dict(_STORAGE_STREAM, keys={"list", "offs", "win", "lag", "own", "bro", "gs", "parts", "count"}),
                 {"name": "conc", "keys": None, "trivial": r"^ok$", "hist_keys": [],
-                 "scale": {"quick": 1, "thorough": 4}, "seeds": {"quick": 1, "thorough": 2}}],
-    "rule": _STORAGE_RULE + " Stream conc (shared with C08): the module's real worker pool; in the 'ordered' batches every group's requests — commits, owner updates, deletions, detail reads — come from one "
+                 "scale": {"quick": 1, "thorough": 4}, "seeds": {"quick": 1, "thorough": 2}},
+                dict(_CLUSTER_STREAM, keys={"del", "asked"})],
+    "rule": _STORAGE_RULE + " Stream cluster (shared with C11/C12; judged here on the groups reaper's ticks: which groups it asks storage to delete): " + _CLUSTER_RULE + " Stream conc (shared with C08): the module's real worker pool; in the 'ordered' batches every group's requests — commits, owner updates, deletions, detail reads — come from one "
             "lane, so each group's outcome is determined by its submission order and is compared with the model: a deletion that overtakes an earlier commit of its group shows as a resurrected group."
             " After every deletion of any kind all six fetch kinds are issued for every known cluster, group and topic (the frame condition, observed); expire-group 1/5 s cases place commit times on and around the expiry boundary and age the store by time shifting.",
     "trusted": [
